@@ -133,6 +133,25 @@ func main() {
 		vrt.Logf("n=%d", n)
 	}, "n=1")
 
+	// kill -9 of everything but the caller: frozen threads never run again, are no channel partners,
+	// their timers are dropped, they are neither deadlocked nor awaited by Quiesce; a lock they hold stays held
+	add("freeze", 3, func() {
+		c := make(chan int)
+		var held vrt.Mutex
+		n := 0
+		vrt.Go("old-receiver", func() { n += vrt.Recv(c) })
+		vrt.Go("old-sleeper", func() { held.Lock(); vrt.Sleep(1e9); n += 100; held.Unlock() })
+		vrt.GoFG("old-fg", func() { vrt.WaitUntil("never", func() bool { return false }) })
+		vrt.Quiesce("before")
+		k := vrt.FreezeOthers()
+		got := -1
+		vrt.Go("new-receiver", func() { got = vrt.Recv(c) })
+		vrt.Send(c, 7)
+		vrt.Sleep(5e9)
+		vrt.Quiesce("after")
+		vrt.Logf("frozen=%d n=%d got=%d locked=%v", k, n, got, !held.TryLock())
+	}, "frozen=3 n=0 got=7 locked=true")
+
 	fail := false
 	for _, sc := range scs {
 		outcomes := map[string]bool{}
